@@ -40,6 +40,8 @@ func runC05(c *Check) {
 	c05Wrapped(c)
 	c05Layout(c)
 	c05ProofsCache(c, "R5.4")
+	// a truncated file that is accepted reads back as tail padding: shared with C07
+	c07ErrorsAndSizes(c, "R5.5", "R5.6")
 }
 
 func c05Forwarders(c *Check) {
@@ -692,6 +694,73 @@ func runC07(c *Check) {
 	} else {
 		c.Unresolved("R7.5", "Store.put not found")
 	}
+	c07ErrorsAndSizes(c, "R7.8", "R7.9")
+}
+
+// c07ErrorsAndSizes: (errRule) no error of the file layer is discarded - a write or
+// flush error that is dropped lets put() link and report a truncated file;
+// (sizeRule) the size validation that decides "this existing file is complete"
+// is an exact equality with the size computed from the square.
+func c07ErrorsAndSizes(c *Check, errRule, sizeRule string) {
+	p := c.P
+	c.Rule(errRule, "no error of the file layer is discarded on the write, validate and remove paths")
+	c.Rule(sizeRule, "existing files are accepted only if their size equals the size computed from the square")
+	n := checkNoDroppedErrors(c, errRule, storeDroppedErrExempt, "store/file", "store")
+	c.Floor(errRule, "calls with a discarded error in store and store/file (all reasoned)", n, 1)
+	nv := 0
+	for _, f := range p.FuncsOfPkg("store/file") {
+		if f.Parent() != nil || !strings.Contains(strings.ToLower(f.Name()), "validate") || !strings.HasSuffix(f.Name(), "Size") {
+			continue
+		}
+		// only the functions that themselves stat the file
+		var sizeCalls []*ssa.Call
+		for _, b := range f.Blocks {
+			for _, ins := range b.Instrs {
+				if g, ok := ins.(*ssa.Call); ok && g.Call.IsInvoke() && g.Call.Method.Name() == "Size" && len(g.Call.Args) == 0 {
+					if n := derefNamed(g.Call.Value.Type()); n != nil && n.Obj().Name() == "FileInfo" {
+						sizeCalls = append(sizeCalls, g)
+					}
+				}
+			}
+		}
+		if len(sizeCalls) == 0 {
+			continue
+		}
+		nv++
+		c.SawFunc(f)
+		var sq *ssa.Parameter
+		for _, pr := range f.Params {
+			if n := derefNamed(pr.Type()); n != nil && n.Obj().Name() == "ExtendedDataSquare" {
+				sq = pr
+			}
+		}
+		cut, gates := failGates(f, func(cond ssa.Value, sl *Slice) bool {
+			x, y, ok := comparisonOperands(cond)
+			if !ok {
+				return false
+			}
+			sx, sy := backSlice(x, SliceOpt{CallArgs: true, CalleeDepth: 2, P: p}), backSlice(y, SliceOpt{CallArgs: true, CalleeDepth: 2, P: p})
+			isSize := func(s *Slice) bool {
+				for _, k := range sizeCalls {
+					if s.Vals[k] {
+						return true
+					}
+				}
+				return false
+			}
+			fromSq := func(s *Slice) bool { return sq != nil && s.Vals[sq] }
+			return (isSize(sx) && fromSq(sy) && !isSize(sy)) || (isSize(sy) && fromSq(sx) && !isSize(sx))
+		})
+		res := gateWalk(p, f, blocksOfReturns(successReturns(f)), cut, nil)
+		c.Ob(sizeRule, fnName(f)+": exact size", len(gates) > 0 && !res.Reached, p.Pos(f.Pos()),
+			"success only across a rejecting (in)equality test of the file's size against a size computed from the square (a range or alignment test accepts a file torn at a share boundary)", res.Witness...)
+	}
+	c.Floor(sizeRule, "size validators that stat a file", nv, 2)
+}
+
+// storeDroppedErrExempt: confirmed by reading; callee@function substring -> reason.
+var storeDroppedErrExempt = map[string]string{
+	"(*os.File).Close@store/file.validateQ4Size": "deferred Close of a descriptor opened read-only with os.Open: nothing can be lost",
 }
 
 // ---------------- C08 ----------------
